@@ -198,6 +198,7 @@ namespace pika::threads::detail {
             task_description* task = nullptr;
             while (add_count-- && addfrom->new_tasks_.pop(task, steal))
             {
+                PIKA_VERIF_POST("place.unstage", task, reinterpret_cast<std::uintptr_t>(this), reinterpret_cast<std::uintptr_t>(addfrom));
 #ifdef PIKA_HAVE_THREAD_QUEUE_WAITTIME
                 if (get_maintain_queue_wait_times_enabled())
                 {
@@ -687,6 +688,7 @@ namespace pika::threads::detail {
 #else
             new (td) task_description{std::move(data)};    //-V106
 #endif
+            PIKA_VERIF_POST("place.stage", td, reinterpret_cast<std::uintptr_t>(this), 0);
             new_tasks_.push(td);
             if (&ec != &throws) ec = make_success_code();
         }
@@ -782,6 +784,7 @@ namespace pika::threads::detail {
                 }
 
                 thrd = std::move(tdesc->data);
+                PIKA_VERIF_POST("place.pop", threads::detail::get_thread_id_data(thrd), reinterpret_cast<std::uintptr_t>(this), steal ? 1 : 0);
                 delete tdesc;
 
                 return true;
@@ -791,6 +794,7 @@ namespace pika::threads::detail {
             if (0 != work_items_count && work_items_.pop(next_thrd, steal))
             {
                 thrd.reset(next_thrd, false);    // do not addref!
+                PIKA_VERIF_POST("place.pop", next_thrd, reinterpret_cast<std::uintptr_t>(this), steal ? 1 : 0);
                 PIKA_VERIF_PRE("el.dec", this);
                 --work_items_count_.data_;
                 PIKA_VERIF_POST("el.dec", this, 0, 0);
@@ -804,6 +808,7 @@ namespace pika::threads::detail {
         void schedule_thread(threads::detail::thread_id_ref_type thrd, bool other_end = false)
         {
             PIKA_VERIF_POST("q.push", threads::detail::get_thread_id_data(thrd), threads::detail::get_thread_id_data(thrd)->verif_word(), 1);
+            PIKA_VERIF_POST("place.push", threads::detail::get_thread_id_data(thrd), reinterpret_cast<std::uintptr_t>(this), other_end ? 1 : 0);
             PIKA_VERIF_PRE("el.inc", this);
             ++work_items_count_.data_;
             PIKA_VERIF_POST("el.inc", this, 0, 0);
